@@ -1,5 +1,6 @@
 import Driver.Suite
 import SunriseVerif.Model.ShareClass
+import SunriseVerif.Model.SCAccrualAbs
 /-! Line-protocol suite `share` (harness/cmd/svh/suite_share.go): replays the recorded operations and boundary
     results on Model/ShareClass.lean and prints the observations the real application printed. -/
 namespace Sunrise.Driver.ShareSuite
@@ -9,6 +10,7 @@ structure DSt where
   s : ShareClass.St := default
   nAcc : Nat := 0
   nVal : Nat := 0
+  accFail : List String := []   -- lock-step disagreements with the reward-accounting abstraction (SCAccrual) since the last block
 
 def pI (s : String) : Int := s.toInt?.getD 0
 
@@ -41,6 +43,29 @@ def ext (ts : List String) : StakeExt :=
     completion := kvInt ts "completion",
     hook := parseCoins ((kv ts "hook").getD "-") }
 
+def accNames (d : DSt) : List String := (List.range d.nAcc).map fun i => "a" ++ toString i
+def valNames (d : DSt) : List String := (List.range d.nVal).map fun v => "v" ++ toString v
+def coinAmt (cs : Coins) (dn : String) : Int := ((cs.filter (·.1 == dn)).map (·.2)).foldl (· + ·) 0
+
+/-- lock-step of one successful operation against `SCAccrual`, for every validator and reward denom; `evsOf v dn` = the
+    abstract events of the operation for that pair -/
+def lockstepAll (d : DSt) (before after : ShareClass.St) (tag : String) (evsOf : String → String → List SCAccrual.Ev) : List String :=
+  (valNames d).foldl (fun acc v =>
+    rewardDenoms.foldl (fun acc dn =>
+      if SCAccrual.lockstepSC before after v dn (accNames d) (evsOf v dn) && SCAccrual.wfB (SCAccrual.absSC after v dn (accNames d))
+      then acc else acc ++ [s!"{tag} {v} {dn}"]) acc) []
+
+/-- events of a message of user `u` at validator `v`: the claim it starts with (what the saver paid) and the change of the
+    user's share balance -/
+def msgEvs (d : DSt) (before after : ShareClass.St) (u v : String) (v' dn : String) : List SCAccrual.Ev :=
+  if v' != v then [] else
+  match (accNames d).idxOf? u with
+  | none => []
+  | some i =>
+    let pay := before.bank.bal (saver v) dn - after.bank.bal (saver v) dn
+    let δ := after.bank.bal u (shareDenom v) - before.bank.bal u (shareDenom v)
+    [.claim i (pay : Rat)] ++ (if δ = 0 then [] else [.setShares i δ])
+
 def step (d : DSt) : List String → DSt × List String
   | "reset" :: rest =>
     let nAcc := (kvInt rest "accs").toNat
@@ -53,18 +78,21 @@ def step (d : DSt) : List String → DSt × List String
     ({ s := ShareClass.St.init bank, nAcc := nAcc, nVal := nVal }, [])
   | "delegate" :: u :: v :: amt :: rest =>
     let (s', o) := ShareClass.step d.s (.delegate u v (pI amt) ((kv rest "denom").getD "") (ext rest))
-    let d' := { d with s := s' }
+    let fails := if o.cls == "ok" then lockstepAll d d.s s' "delegate" (msgEvs d d.s s' u v) else []
+    let d' := { d with s := s', accFail := d.accFail ++ fails }
     (d', [o.cls ++ " " ++ showSt d'])
   | "undelegate" :: u :: v :: amt :: rest =>
     let (s', o) := ShareClass.step d.s (.undelegate u v (pI amt) ((kv rest "rcpt").getD u) (ext rest))
-    let d' := { d with s := s' }
+    let fails := if o.cls == "ok" then lockstepAll d d.s s' "undelegate" (msgEvs d d.s s' u v) else []
+    let d' := { d with s := s', accFail := d.accFail ++ fails }
     (d', [o.cls ++ " " ++ showSt d'])
   | ["claim", u, v] =>
     let q := match claimable d.s u v with
       | .ok cs => showCoins cs
       | _ => "err"
     let (s', o) := ShareClass.step d.s (.claim u v)
-    let d' := { d with s := s' }
+    let fails := if o.cls == "ok" then lockstepAll d d.s s' "claim" (msgEvs d d.s s' u v) else []
+    let d' := { d with s := s', accFail := d.accFail ++ fails }
     (d', [s!"{o.cls} claimable={q} paid={if o.cls = "ok" then showCoins o.paid else "-"} " ++ showSt d'])
   | ["query", "unbondings", u] =>
     let l := d.s.unb.filter (fun e => e.rcpt = u)
@@ -74,8 +102,18 @@ def step (d : DSt) : List String → DSt × List String
     let rewards := (List.range d.nVal).map fun v =>
       ("v" ++ toString v, parseCoins ((kv rest ("reward.v" ++ toString v)).getD "-"))
     let (s', o) := ShareClass.step d.s (.block (kvInt rest "t") (kvInt rest "matured") rewards)
-    let d' := { d with s := s' }
-    (d', [if o.cls = "ok" then "ok " ++ showSt d' else "halt"])
+    let blockEvs := fun (v dn : String) =>
+      match rewards.lookup v with
+      | some cs =>
+        if cs.all (fun c => c.2 == 0) || !(cs.any (·.1 == dn)) then []
+        else if s'.bank.bal (saver v) dn - d.s.bank.bal (saver v) dn != coinAmt cs dn then []   -- forwarding failed: logged only
+        else [SCAccrual.Ev.reward (coinAmt cs dn : Rat) (SCAccrual.valD (s'.mult v dn))]
+      | none => []
+    let fails := if o.cls == "ok" then lockstepAll d d.s s' "block" blockEvs else []
+    let all := d.accFail ++ fails
+    let d' := { d with s := s', accFail := [] }
+    if o.cls = "ok" then (d', ["ok " ++ showSt d', if all.isEmpty then "inv ok" else "inv FAIL " ++ " | ".intercalate all])
+    else (d', ["halt"])
   | _ => (d, ["bad-op"])
 
 def run := runSuite ({} : DSt) step
